@@ -147,8 +147,15 @@ def make_ob(magic, v, name, fields, flag, tier):
         assert len(idxs) == kinds_n
         for i in idxs:
             nm = "k%d" % i
-            b.params.append((nm, (1, 4)))
-            b.items[i] = ("mul32", nm)
+            if v >= (3, 12):
+                # 3.12 added CO_FAST_HIDDEN (0x10: inlined comprehension variables): kinds 0x20..0x80 in steps of 0x10
+                # (0x30 = LOCAL|HIDDEN, 0x70 = LOCAL|HIDDEN|CELL; 0x50 is never written)
+                b.params.append((nm, (2, 8)))
+                b.items[i] = ("mul16", nm)
+                b.pre.append(lambda kw, nm=nm: kw[nm] != 5)
+            else:
+                b.params.append((nm, (1, 4)))
+                b.items[i] = ("mul32", nm)
     params = list(b.params)
     pres = list(b.pre)
 
@@ -156,7 +163,7 @@ def make_ob(magic, v, name, fields, flag, tier):
         out = []
         for x in b.items:
             if isinstance(x, tuple):
-                out.append(32 * kw[x[1]])
+                out.append((16 if x[0] == "mul16" else 32) * kw[x[1]])
             elif isinstance(x, str):
                 out.append(kw[x])
             else:
